@@ -295,6 +295,7 @@ def decodeOp (j : Json) : M (Op Rat GRat) := do
     | "phase_cycle" => do
       let dm ← dim; let rp ← jNatList (← jField kw "rp")
       pure (.proc (fun d => d.phaseCycle AR dm rp negIpow) obj out)
+    | "ndalign" => do let dm ← dim; pure (.proc (fun d => d.ndalign AR arangeR dm) obj out)
     | "trace_local" => do
       let dm ← dim
       let tbl ← (← jArr (← jField kw "table")).mapM (fun e => do
